@@ -11,6 +11,7 @@ namespace Bkl
 def coveredRanges : List ((String × String × String) × String) := [
   (("document.go", "allParents", "parent.AllParents(...)"), "C09_allParents_order_invariant"),
   (("filepath.go", "findFile", "formatByExtension"), "order matters only for ambiguous layer names (excluded by the property); model: sorted"),
+  (("json.go", "jsonKeepFloats", "v2"), "C09_insert_order_invariant (copy into a fresh map; added by fix c9f6d4f)"),
   (("match.go", "matchMap", "objMap"), "single-entry map (len == 1 is tested first)"),
   (("match.go", "matchMap", "pat"), "C09_match_order_invariant"),
   (("merge.go", "mergeMapMap", "src"), "C09_merge_order_invariant"),
@@ -18,6 +19,7 @@ def coveredRanges : List ((String × String × String) × String) := [
   (("util.go", "deepClone", "v2"), "C09_insert_order_invariant (copy into a fresh map)"),
   (("util.go", "filterMap", "m2"), "C09_insert_order_invariant (insert into the result map)"),
   (("validate.go", "validateMap", "obj"), "C09_validate_order_invariant"),
+  (("yaml.go", "yamlKeepFloats", "v2"), "C09_insert_order_invariant (copy into a fresh map; added by fix c9f6d4f)"),
   (("yaml.go", "yamlMerge", "inner"), "C09_insert_order_invariant"),
   (("yaml.go", "yamlMerge", "src2"), "C09_insert_order_invariant")]
 
